@@ -80,9 +80,7 @@ theorem cellOf_pred (cm : Bool) (columns n : Nat) (hc : 1 ≤ columns) (i : Nat)
       simp
   | true =>
     have ⟨hk, _⟩ := perCol_spec columns n hc (by omega)
-    rw [cellOf_true] at hr ⊢
-    rw [cellOf_true]
-    simp only at hr ⊢
+    simp only [cellOf_true] at hr ⊢
     generalize (n + columns - 1) / columns = per at hr hk ⊢
     have hi := Nat.div_add_mod i per
     have hm := Nat.mod_lt i hk
@@ -90,5 +88,243 @@ theorem cellOf_pred (cm : Bool) (columns n : Nat) (hc : 1 ≤ columns) (i : Nat)
     have hlt : i % per - 1 < per := by omega
     rw [Nat.mul_add_div hk, Nat.mul_add_mod, Nat.div_eq_of_lt hlt, Nat.mod_eq_of_lt hlt]
     simp
+
+/-! ### grouping a list by a bounded key -/
+
+theorem filter_lt_succ_perm (f : Nat → Nat) (k : Nat) (l : List Nat) :
+    ((l.filter fun i => f i < k) ++ (l.filter fun i => f i = k)).Perm (l.filter fun i => f i < k + 1) := by
+  induction l with
+  | nil => exact List.Perm.refl _
+  | cons a l ih =>
+    by_cases h1 : f a < k
+    · have e1 : decide (f a < k) = true := decide_eq_true h1
+      have e2 : decide (f a = k) = false := decide_eq_false (by omega)
+      have e3 : decide (f a < k + 1) = true := decide_eq_true (by omega)
+      simp only [List.filter_cons, e1, e2, e3, if_true, Bool.false_eq_true, if_false, List.cons_append]
+      exact ih.cons a
+    · by_cases h2 : f a = k
+      · have e1 : decide (f a < k) = false := decide_eq_false h1
+        have e2 : decide (f a = k) = true := decide_eq_true h2
+        have e3 : decide (f a < k + 1) = true := decide_eq_true (by omega)
+        simp only [List.filter_cons, e1, e2, e3, if_true, Bool.false_eq_true, if_false]
+        exact List.perm_middle.trans (ih.cons a)
+      · have e1 : decide (f a < k) = false := decide_eq_false h1
+        have e2 : decide (f a = k) = false := decide_eq_false h2
+        have e3 : decide (f a < k + 1) = false := decide_eq_false (by omega)
+        simp only [List.filter_cons, e1, e2, e3, Bool.false_eq_true, if_false]
+        exact ih
+
+theorem flatten_filter_perm (f : Nat → Nat) (l : List Nat) (k : Nat) :
+    (((List.range k).map fun c => l.filter fun i => f i = c).flatten).Perm (l.filter fun i => f i < k) := by
+  induction k with
+  | zero => simp
+  | succ k ih =>
+    rw [List.range_succ, List.map_append, List.flatten_append]
+    simp only [List.map_cons, List.map_nil, List.flatten_cons, List.flatten_nil, List.append_nil]
+    exact (ih.append_right _).trans (filter_lt_succ_perm f k l)
+
+/-- In a list `range n` filtered by column, the `r`-th entry is the item of layout row `r`, as soon
+as cells are distinct and every cell below the first row has an earlier item right above it. -/
+theorem filter_rank (f : Nat → Nat × Nat) (N : Nat)
+    (hinj : ∀ i j, i < N → j < N → f i = f j → i = j)
+    (hpred : ∀ i, i < N → 0 < (f i).1 → ∃ j, j < i ∧ f j = ((f i).1 - 1, (f i).2)) (c : Nat) :
+    ∀ n, n ≤ N →
+      (∀ r, (hr : r < ((List.range n).filter fun i => (f i).2 = c).length) →
+        f (((List.range n).filter fun i => (f i).2 = c)[r]) = (r, c)) ∧
+      (∀ i, i < n → (f i).2 = c → (f i).1 < ((List.range n).filter fun i => (f i).2 = c).length) := by
+  intro n
+  induction n with
+  | zero =>
+    intro _
+    constructor
+    · intro r hr; simp at hr
+    · intro i hi; omega
+  | succ n ih =>
+    intro hn
+    have ⟨ih1, ih2⟩ := ih (by omega)
+    by_cases hcn : (f n).2 = c
+    · -- the new item goes to the end of the column, and its row id is the column's length
+      have hrow : (f n).1 = ((List.range n).filter fun i => (f i).2 = c).length := by
+        apply Nat.le_antisymm
+        · by_cases h0 : 0 < (f n).1
+          · have ⟨j, hj, hfj⟩ := hpred n (by omega) h0
+            have := ih2 j hj (by rw [hfj]; exact hcn)
+            rw [hfj] at this
+            simp only at this
+            omega
+          · omega
+        · apply Nat.le_of_not_lt
+          intro hlt
+          have h1 := ih1 (f n).1 hlt
+          have hmem := List.getElem_mem hlt
+          rw [List.mem_filter, List.mem_range] at hmem
+          have := hinj (((List.range n).filter fun i => (f i).2 = c)[(f n).1]) n
+            (by omega) (by omega) (by rw [h1, ← hcn])
+          omega
+      have hfil : ((List.range (n + 1)).filter fun i => (f i).2 = c) =
+          ((List.range n).filter fun i => (f i).2 = c) ++ [n] := by
+        rw [List.range_succ, List.filter_append]
+        simp [hcn]
+      constructor
+      · intro r hr
+        simp only [hfil] at hr ⊢
+        by_cases hlt : r < ((List.range n).filter fun i => (f i).2 = c).length
+        · rw [List.getElem_append_left hlt]
+          exact ih1 r hlt
+        · have hr' : r = ((List.range n).filter fun i => (f i).2 = c).length := by
+            simp at hr; omega
+          rw [List.getElem_append_right (by omega)]
+          simp only [List.getElem_singleton]
+          rw [hr', ← hrow, ← hcn]
+      · intro i hi hci
+        rw [hfil, List.length_append, List.length_singleton]
+        by_cases hin : i = n
+        · subst hin; omega
+        · have := ih2 i (by omega) hci
+          omega
+    · have hfil : ((List.range (n + 1)).filter fun i => (f i).2 = c) =
+          ((List.range n).filter fun i => (f i).2 = c) := by
+        rw [List.range_succ, List.filter_append]
+        simp [hcn]
+      rw [hfil]
+      refine ⟨ih1, ?_⟩
+      intro i hi hci
+      have hin : i ≠ n := by intro e; subst e; exact hcn hci
+      exact ih2 i (by omega) hci
+
+/-! ### the ordered map -/
+
+theorem orderedMap_length (cm : Bool) (columns n : Nat) : (orderedMap cm columns n).length = columns := by
+  simp [orderedMap]
+
+theorem orderedMap_getElem (cm : Bool) (columns n c : Nat) (hc : c < (orderedMap cm columns n).length) :
+    (orderedMap cm columns n)[c] = (List.range n).filter fun i => (cellOf cm columns n i).2 = c := by
+  simp [orderedMap]
+
+theorem orderedMap_mem_lt (cm : Bool) (columns n c : Nat) (hc : c < (orderedMap cm columns n).length)
+    (i : Nat) (hi : i ∈ (orderedMap cm columns n)[c]) : i < n := by
+  rw [orderedMap_getElem, List.mem_filter, List.mem_range] at hi
+  exact hi.1
+
+theorem orderedMap_flatten_perm (cm : Bool) (columns n : Nat) (hc : 1 ≤ columns) :
+    (orderedMap cm columns n).flatten.Perm (List.range n) := by
+  have h := flatten_filter_perm (fun i => (cellOf cm columns n i).2) (List.range n) columns
+  have hall : ((List.range n).filter fun i => (cellOf cm columns n i).2 < columns) = List.range n := by
+    rw [List.filter_eq_self]
+    intro i hi
+    rw [List.mem_range] at hi
+    exact decide_eq_true (cellOf_col_lt cm columns n hc i hi)
+  rw [hall] at h
+  exact h
+
+theorem orderedMap_cell (cm : Bool) (columns n : Nat) (hc : 1 ≤ columns) (c : Nat)
+    (hcl : c < (orderedMap cm columns n).length) (r : Nat) (hr : r < ((orderedMap cm columns n)[c]).length) :
+    cellOf cm columns n (((orderedMap cm columns n)[c])[r]) = (r, c) := by
+  have h := (filter_rank (cellOf cm columns n) n
+    (fun i j _ _ h => cellOf_inj cm columns n i j h)
+    (fun i hi h0 => cellOf_pred cm columns n hc i hi h0) c n (Nat.le_refl _)).1
+  have e := orderedMap_getElem cm columns n c hcl
+  simp only [e] at hr ⊢
+  exact h r hr
+
+/-- every item is somewhere in the ordered map: at entry `r` of column `c` for its cell `(r, c)` -/
+theorem orderedMap_find (cm : Bool) (columns n : Nat) (hc : 1 ≤ columns) (i : Nat) (hi : i < n) :
+    ∃ (hcl : (cellOf cm columns n i).2 < (orderedMap cm columns n).length)
+      (hr : (cellOf cm columns n i).1 < ((orderedMap cm columns n)[(cellOf cm columns n i).2]).length),
+      ((orderedMap cm columns n)[(cellOf cm columns n i).2])[(cellOf cm columns n i).1] = i := by
+  have hcl : (cellOf cm columns n i).2 < (orderedMap cm columns n).length := by
+    rw [orderedMap_length]; exact cellOf_col_lt cm columns n hc i hi
+  have hmem : i ∈ (orderedMap cm columns n)[(cellOf cm columns n i).2] := by
+    rw [orderedMap_getElem, List.mem_filter, List.mem_range]
+    exact ⟨hi, decide_eq_true rfl⟩
+  have ⟨r, hr, hri⟩ := List.getElem_of_mem hmem
+  have hcell := orderedMap_cell cm columns n hc _ hcl r hr
+  rw [hri] at hcell
+  have hr1 : (cellOf cm columns n i).1 = r := by rw [hcell]
+  refine ⟨hcl, by omega, ?_⟩
+  simp only [hr1, hri]
+
+/-! ### row heights -/
+
+theorem foldl_max_ge_init (g : Nat → Nat) (l : List Nat) (a : Nat) :
+    a ≤ l.foldl (fun acc i => max acc (g i)) a := by
+  induction l generalizing a with
+  | nil => exact Nat.le_refl _
+  | cons x l ih => exact Nat.le_trans (Nat.le_max_left _ _) (ih _)
+
+theorem foldl_max_ge_mem (g : Nat → Nat) (l : List Nat) (a i : Nat) (hi : i ∈ l) :
+    g i ≤ l.foldl (fun acc i => max acc (g i)) a := by
+  induction l generalizing a with
+  | nil => cases hi
+  | cons x l ih =>
+    rw [List.foldl_cons]
+    rcases List.mem_cons.mp hi with h | h
+    · subst h
+      exact Nat.le_trans (Nat.le_max_right _ _) (foldl_max_ge_init g l _)
+    · exact ih _ h
+
+theorem rowHeight_ge (cm : Bool) (columns : Nat) (heights : List Nat) (i : Nat) (hi : i < heights.length) :
+    heights[i] ≤ rowHeight cm columns heights (cellOf cm columns heights.length i).1 := by
+  have h := foldl_max_ge_mem (fun i => heights.getD i 0)
+    ((List.range heights.length).filter fun j =>
+      (cellOf cm columns heights.length j).1 = (cellOf cm columns heights.length i).1) 0 i
+    (by rw [List.mem_filter, List.mem_range]; exact ⟨hi, decide_eq_true rfl⟩)
+  simp only [List.getD_eq_getElem?_getD, List.getElem?_eq_getElem hi, Option.getD_some] at h
+  exact h
+
+/-! ### rows and bands -/
+
+theorem rowTop_succ (rowH : Nat → Nat) (r : Nat) : rowTop rowH (r + 1) = rowTop rowH r + rowH r := rfl
+
+theorem rowTop_mono (rowH : Nat → Nat) (r r' : Nat) (h : r < r') :
+    rowTop rowH r + rowH r ≤ rowTop rowH r' := by
+  induction r' with
+  | zero => omega
+  | succ r' ih =>
+    rw [rowTop_succ]
+    by_cases e : r = r'
+    · subst e; exact Nat.le_refl _
+    · have := ih (by omega); omega
+
+theorem colLeft_zero (used : Int) (spacing : Nat) : colLeft used spacing 0 = 0 := by
+  simp [colLeft]
+
+theorem colLeft_succ (used : Int) (spacing c : Nat) :
+    colLeft used spacing (c + 1) = colLeft used spacing c + used.toNat + spacing := by
+  simp only [colLeft, Nat.succ_mul]; omega
+
+theorem colLeft_mono (used : Int) (spacing c c' : Nat) (h : c < c') :
+    colLeft used spacing c + used.toNat + spacing ≤ colLeft used spacing c' := by
+  rw [← colLeft_succ]
+  exact Nat.mul_le_mul_right _ (by omega)
+
+theorem usedWidth_fits (columns spacing : Nat) (hc : 1 ≤ columns) (w : Int) (c : Nat) (hcc : c < columns)
+    (hu : 0 < usedWidth none columns spacing w) :
+    ((colLeft (usedWidth none columns spacing w) spacing c : Nat) : Int) + usedWidth none columns spacing w ≤ w := by
+  simp only [usedWidth] at hu ⊢
+  generalize hX : w - ((columns : Int) - 1) * spacing = X at hu ⊢
+  have hcpos : (0 : Int) < columns := by omega
+  have hXnn : 0 ≤ X := by
+    apply Int.le_of_not_gt
+    intro hneg
+    have h1 : (0 : Int) ≤ (-X).tdiv columns := Int.tdiv_nonneg (by omega) (by omega)
+    have h2 := Int.neg_tdiv (-X) columns
+    rw [Int.neg_neg] at h2
+    omega
+  rw [Int.tdiv_eq_ediv_of_nonneg hXnn] at hu ⊢
+  have hmul : X / columns * columns ≤ X := Int.ediv_mul_le X (by omega)
+  generalize hU : X / (columns : Int) = U at hu hmul ⊢
+  have hle : colLeft U spacing c ≤ colLeft U spacing (columns - 1) := by
+    unfold colLeft
+    exact Nat.mul_le_mul_right _ (by omega)
+  have hcl : ((colLeft U spacing (columns - 1) : Nat) : Int) = ((columns : Int) - 1) * (U + spacing) := by
+    unfold colLeft
+    rw [Int.natCast_mul, Int.natCast_add, Int.toNat_of_nonneg (by omega), Int.natCast_sub hc]
+    rfl
+  have hle' : ((colLeft U spacing c : Nat) : Int) ≤ ((columns : Int) - 1) * (U + spacing) := by
+    rw [← hcl]; exact Int.ofNat_le.mpr hle
+  have e1 : ((columns : Int) - 1) * (U + spacing) = U * columns - U + ((columns : Int) - 1) * spacing := by
+    rw [Int.mul_add, Int.sub_mul, Int.one_mul, Int.mul_comm]
+  omega
 
 end Simpleline
